@@ -10,6 +10,7 @@
   evaluated on the real code after every event by the C10 oracle.
 -/
 import PyIkev2.Proofs.Machine
+import PyIkev2.Proofs.HandlersKernel
 
 namespace PyIkev2.Props.C10
 open PyIkev2 PyIkev2.Impl
@@ -123,5 +124,80 @@ def demo : SaCore :=
     pending := [], indices := [], myAddr := [10], peerAddr := [11], cookie := false }
 
 example : applyOps (keysOf demo ++ [([9], 50, [0xe])]) (deleteChildSas demo).2 = [([9], 50, [0xe])] := by decide
+
+/-! ### the handler contract, for the model of the real handlers (Model/Handlers.lean)
+
+  The model kernel is part of the handler model: `trackChild` (create_child_sa + child_sas.append) and `untrackChild`
+  (delete_child_sa + child_sas.remove) emit the netlink requests, and a ghost SAD follows the ones the kernel accepts —
+  it refuses a key it already holds (EEXIST) and whatever the fault oracle says it refuses.  The harness compares that
+  SAD with the model kernel's after every real handler call. -/
+
+/-- **every handler, every generator**: the SAD after the call is what the emitted requests make of the SAD before it -/
+theorem c10_concrete_requests_explain_the_sad (now : Nat) (m : Msg) (h : HM HRes)
+    (hh : requestHandler now m = some h ∨ responseHandler now m = some h) (me : XSa) (succ : Option XSa) (tape : Tape) (sad : List Key) :
+    (h { me := me, succ := succ, tape := tape, sad := sad }).2.sad =
+      (h { me := me, succ := succ, tape := tape, sad := sad }).2.nl.foldl applyNl sad := by
+  have hk : Keeps (OpsI sad) h := by
+    rcases hh with hh | hh
+    · exact requestHandler_o sad now m h hh
+    · exact responseHandler_o sad now m h hh
+  exact hk.keep { me := me, succ := succ, tape := tape, sad := sad } (by simp [OpsI])
+
+/-- **requests** (IKE_SA_INIT, IKE_AUTH, INFORMATIONAL, CREATE_CHILD_SA for a CHILD_SA — new or rekey): if before the call the
+    SAD is `base` (what belongs to others) plus the two keys of every CHILD_SA record of this IKE_SA, all different, then so it is
+    after the call — whatever the request says, whatever the oracles answer, wherever the kernel refuses: a CHILD_SA is tracked
+    exactly when the kernel holds both of its SAs, and a half-installed pair is rolled back -/
+theorem c10_concrete_request_keeps_sad_equal_tracked (base : List Key) (now : Nat) (m : Msg) (h : HM HRes)
+    (hh : requestHandler now m = some h) (hn : notIkeRekey m) (me : XSa) (succ : Option XSa) (tape : Tape) (sad : List Key)
+    (hinv : SadI base me.core.myAddr me.core.peerAddr { me := me, succ := succ, tape := tape, sad := sad }) :
+    let o := runH h me succ tape sad
+    o.sad = o.nl.foldl applyNl sad ∧ (∀ e, e ∈ o.sad ↔ e ∈ base ∨ e ∈ keysX o.me) ∧ (base ++ keysX o.me).Nodup ∧
+      o.me.core.children = o.me.ext.kids.map Child.ref :=
+  runH_contract base h (fun a p => requestHandler_s base a p now m h hh hn) (fun sad0 => requestHandler_o sad0 now m h hh) me succ tape sad hinv
+
+/-- **responses** to IKE_SA_INIT, IKE_AUTH, INFORMATIONAL and to a CREATE_CHILD_SA request for a CHILD_SA: likewise -/
+theorem c10_concrete_response_keeps_sad_equal_tracked (base : List Key) (a p : Bytes) (m : Msg) (prev : Nat) :
+    Keeps (SadI base a p) (processIkeSaInitResponse m) ∧ Keeps (SadI base a p) (processIkeAuthResponse m) ∧
+    Keeps (SadI base a p) (childSaResponse prev m) ∧ Keeps (SadI base a p) (processInformationalResponse m) :=
+  ⟨processIkeSaInitResponse_s base a p m, processIkeAuthResponse_s base a p m, childSaResponse_s base a p prev m,
+   processInformationalResponse_s base a p m⟩
+
+/-- **request generators** (ACQUIRE, EXPIRE, DPD, IKE_SA delete and rekey timers): none touches the kernel or the records -/
+theorem c10_concrete_generators_keep_sad_equal_tracked (base : List Key) (a p : Bytes) (x y : TS) (i now : Nat) (c : ChildRef) (hard : Bool) :
+    Keeps (SadI base a p) (genAcquireH x y i) ∧ Keeps (SadI base a p) (genExpireH c hard) ∧ Keeps (SadI base a p) generateDpdRequest ∧
+    Keeps (SadI base a p) generateDeleteIkeSaRequest ∧ Keeps (SadI base a p) (generateRekeyIkeSaRequest now) :=
+  ⟨genAcquireH_s base a p x y i, genExpireH_s base a p c hard, generateDpdRequest_s base a p, generateDeleteIkeSaRequest_s base a p,
+   generateRekeyIkeSaRequest_s base a p now⟩
+
+/-- **IKE_SA rekey hand-over**: the only other place where records move.  It asks nothing of the kernel and changes nothing in
+    the SAD; the records go to the successor as they are (same addresses, hence same keys), this IKE_SA keeps none -/
+theorem c10_concrete_handover (fromTmp : Bool) (s : HSt) (n : XSa) (hn : (if fromTmp then s.tmp else s.succ) = some n)
+    (ha : n.core.myAddr = s.me.core.myAddr ∧ n.core.peerAddr = s.me.core.peerAddr) :
+    let t := (handOver fromTmp s).2
+    t.sad = s.sad ∧ t.nl = s.nl ∧ keysX t.me = [] ∧ (∃ n', t.succ = some n' ∧ keysX n' = keysX s.me ∧ n'.core.st = stESTABLISHED) ∧
+      t.me.core.st = stREKEYED := by
+  intro t
+  have hme : t.me = { (s.me.setKids []) with core := { (s.me.setKids []).core with st := stREKEYED } } := rfl
+  have hsucc : t.succ = (if fromTmp then s.tmp else s.succ).map fun n =>
+      { (n.setKids s.me.ext.kids) with core := { (n.setKids s.me.ext.kids).core with st := stESTABLISHED } } := rfl
+  refine ⟨rfl, rfl, ?_, ?_, rfl⟩
+  · rw [hme]; simp [keysX, XSa.setKids]
+  · refine ⟨{ (n.setKids s.me.ext.kids) with core := { (n.setKids s.me.ext.kids).core with st := stESTABLISHED } }, ?_, ?_, rfl⟩
+    · rw [hsucc, hn]; rfl
+    · apply keysX_congr
+      · simpa [XSa.setKids] using ha.1
+      · simpa [XSa.setKids] using ha.2
+      · simp [XSa.setKids]
+
+/-! non-vacuity: an object with one CHILD_SA whose two SAs are in the SAD next to a foreign entry satisfies the invariant -/
+example : SadI [([9], 50, [0xe])] [10] [11]
+    { me := { core := { demo with children := [{ inSpi := [0xa], outSpi := [0xb], proto := 3 }] },
+              ext := { conf := emptyConf,
+                       kids := [{ inSpi := [0xa], outSpi := [0xb], orig := emptyConf.proposal, proposal := { emptyConf.proposal with proto := 3 },
+                                  tsi := [], tsr := [], mode := 0, lifetime := 0 }] } },
+      succ := none, tape := { vals := [] }, sad := [([9], 50, [0xe]), ([11], 50, [0xb]), ([10], 50, [0xa])] } := by
+  refine ⟨rfl, rfl, ?_, by decide, by decide⟩
+  intro e
+  simp [keysX, kidKeys, outKey, inKey, demo, ipsecProto]
 
 end PyIkev2.Props.C10
